@@ -296,8 +296,11 @@ def check_c15(tier: str) -> Report:
     configs, behs, _ = export_behaviours(pick_cfg("RetryMC_C15x", tier), "C15-exp")
     pconfigs, pbehs, pex = export_behaviours(pick_cfg("PolicyMC_C15x", tier), "C15p-exp",
                                              module="PolicyMC.tla")
+    # long runs (six attempts): a hook that raises at every event, with and without timeline capture
+    yconfigs, ybehs, _ = export_behaviours("RetryMC_C15y.cfg", "C15y-exp")
+    ybehs = [b for b in ybehs if sum(1 for e in b["h"] if e["e"] == "invoke") >= 5]
     tot = {"runs": 0, "viol": [], "drift": 0}
-    for level, cf, bs in (("retry", configs, behs), ("policy", pconfigs, pbehs)):
+    for level, cf, bs in (("retry", configs, behs), ("retry", yconfigs, ybehs), ("policy", pconfigs, pbehs)):
         items = [(i, b["c"], b["h"]) for i, b in enumerate(bs)]
         size = max(5, len(items) // 112 + 1)
         chunks = [items[i:i + size] for i in range(0, len(items), size)]
@@ -319,7 +322,7 @@ def check_c15(tier: str) -> Report:
                               "trace_with_silent_hooks": v["silent"], "trace_with_raising_hook": v["faulty"]})
     rep.coverage.update({
         "states": mc.distinct + pex.distinct, "transitions": mc.generated + pex.generated,
-        "behaviours_exported": len(behs) + len(pbehs), "executions": tot["runs"],
+        "behaviours_exported": len(behs) + len(ybehs) + len(pbehs), "executions": tot["runs"],
         "traces_validated_against_impl": tot["runs"], "silent_traces_differing_from_M": tot["drift"],
         "hooks": ["on_metric", "on_log", "before_sleep (sync and awaitable)", "timeline wrapper"],
         "exception_types": sorted(_exc_types()), "exhaustive": True,
